@@ -115,8 +115,8 @@ Proof.
     change (map trim_space (ab_before b)) with (tcoms (ab_before b)). change (map trim_space (ab_lsfx b)) with (tcoms (ab_lsfx b)).
     change (map trim_space (ab_rbefore b)) with (tcoms (ab_rbefore b)). change (map trim_space (ab_rsfx b ++ ab_sfx b)) with (tcoms (ab_rsfx b ++ ab_sfx b)).
     rewrite (ev_tcoms _ (Forall_comment_bcom _ Hb)), (ev_tcoms _ (sfx_bcom _ Hls)), (ev_tcoms _ Hrb), (ev_tcoms _ (sfx_bcom _ Hs)).
-    rewrite (ev_lines_norm _ _ Hl). rewrite map_app. unfold ev_comments at 9 10 11. rewrite map_app. cbn [map app].
-    rewrite <- !app_assoc. reflexivity.
+    rewrite (ev_lines_norm _ _ Hl). unfold ev_comments. rewrite !map_app. cbn [map app]. rewrite ?app_nil_r.
+    rewrite <- ?app_assoc. reflexivity.
   - intros (_ & Hc). cbn [cb_comments cm_before cm_suffix cm_after]. change (map trim_space cs) with (tcoms cs).
     rewrite (ev_tcoms _ (Forall_comment_bcom _ Hc)). reflexivity.
 Qed.
